@@ -345,3 +345,30 @@ Lemma eats_chr neg rs c rest pos cs k lo hi : chr_ok neg rs c = true -> eats (Ch
 Proof.
   intros Hc _. exists cs. split; [apply only_touches_refl|]. cbn [app length]. rewrite BT_chr, Hc. f_equal. lia.
 Qed.
+
+(* greedy repetition of a character class, success-directed, captures untouched (explicit form) *)
+Lemma BT_star_class_S neg rs : forall w rest pos cs k,
+  Forall (fun c => chr_ok neg rs c = true) w ->
+  (match rest with [] => True | c :: _ => chr_ok neg rs c = false end) ->
+  k rest (pos + length w)%nat cs <> BNo ->
+  BT (Star (Chr neg rs)) (w ++ rest) pos cs k = k rest (pos + length w)%nat cs.
+Proof.
+  intros w rest pos cs k Hw Hr. revert pos. induction Hw as [|c w Hc Hw IH]; intros pos Hk.
+  - cbn [app length] in *. rewrite Nat.add_0_r in *. rewrite BT_star. destruct rest as [|x rest']; [reflexivity|]. now rewrite BT_chr, Hr.
+  - cbn [app length] in *. rewrite BT_star, BT_chr, Hc.
+    assert (Ep : Nat.eqb (S pos) pos = false) by (apply Nat.eqb_neq; lia). rewrite Ep.
+    replace (pos + S (length w))%nat with (S pos + length w)%nat in * by lia.
+    rewrite IH by exact Hk. destruct (k rest (S pos + length w)%nat cs) eqn:Ek; try reflexivity. congruence.
+Qed.
+
+(* ... and when the continuation refuses every stopping point, the repetition fails as a whole *)
+Lemma BT_star_class_no neg rs w rest pos cs k :
+  Forall (fun c => chr_ok neg rs c = true) w ->
+  (match rest with [] => True | c :: _ => chr_ok neg rs c = false end) ->
+  (forall j p c, (j <= length w)%nat -> k (skipn j w ++ rest) p c = BNo) ->
+  BT (Star (Chr neg rs)) (w ++ rest) pos cs k = BNo.
+Proof.
+  intros Hw Hr Hk. rewrite BT_star_class; [| assumption | assumption |].
+  - specialize (Hk (length w) (pos + length w)%nat cs (Nat.le_refl _)). now rewrite skipn_all in Hk.
+  - intros j Hj. apply Hk. lia.
+Qed.
